@@ -418,6 +418,62 @@ def execute(ck, harness, model, lines, hist):
     return hout
 
 
+def accessor_cases(ck, harness, model, hist):
+    """the other public members (size, empty, operator[] read/write, vector conversion, ==, inc_age, i_de::operator=):
+    harness vs model line by line, and the property-level facts on the implementation's output"""
+    rng = ck.rng
+    lines = []
+    for _ in range(300 if ck.thorough else 60):
+        n = rng.choice([1, 2, 3, 8, 40])
+        g = [rng.choice([0, 1, -1, I32_MIN, I32_MAX, rng.randint(-1000, 1000)]) for _ in range(n)]
+        i = rng.choice([0, n - 1, rng.randrange(n), n, n + 3])
+        v = rng.choice([g[min(i, n - 1)], I32_MIN, I32_MAX, rng.randint(-50, 50)])
+        lines.append("gaacc 0 %d %d %s %d %d" % (n, rng.choice(AGES), " ".join(map(str, g)), i, v))
+        specials = [0.0, -0.0, 1.0, math.nan, math.inf, -math.inf, 5e-324, 1e308]
+        gd = [rng.choice(specials + [rng.uniform(-10, 10)]) for _ in range(n)]
+        m = rng.choice([n, n, n, n + 1, max(0, n - 1)])
+        w = [rng.choice(specials + [rng.uniform(-10, 10)]) for _ in range(m)]
+        if m == n and rng.random() < 0.3:
+            w = list(gd)
+        lines.append("deacc 0 %d %d %s %d %s %d %s" % (n, rng.choice(AGES), " ".join(map(hx, gd)), i,
+                                                       hx(rng.choice(specials + [gd[min(i, n - 1)]])), m, " ".join(map(hx, w))))
+    hout, crashes = pc.run_harness_resilient(harness, lines)
+    rc, mout, merr = vv.run_lines(model, "\n".join(l + " |" for l in lines) + "\n")
+    if rc != 0 or len(mout) != len(lines):
+        raise vv.BuildError("model driver failed on accessor cases: rc=%s %s" % (rc, merr[:500]))
+    for k, (l, ho, mo) in enumerate(zip(lines, hout, mout)):
+        ck.count()
+        op = l.split()[0]
+        hist[op] = hist.get(op, 0) + 1
+        if ho is None or ho.startswith("CRASH"):
+            ck.add_violation("%s:undefined-behaviour" % op, "%s executes undefined behaviour (sanitizer report)" % op,
+                             {"cases": [l], "impl": ho, "sanitizer": crashes.get(k, "")[-1500:]})
+            continue
+        if ho != mo:
+            ck.add_diff({"line": l}, mo, ho)
+        w = l.split()
+        n, age = int(w[2]), int(w[3])
+        i = int(w[4 + n])
+        f = ho.split()
+        if int(f[f.index("size") + 1]) != n:
+            ck.add_violation("%s:size" % op, "size() = %s for %d genes" % (f[f.index("size") + 1], n), {"cases": [l], "impl": ho})
+        if i < n:
+            got = f[f.index("get") + 1]
+            if got != (w[4 + i] if op == "gaacc" else (NAN if fl(w[4 + i]) != fl(w[4 + i]) else w[4 + i])):
+                ck.add_violation("%s:operator[]-read" % op, "x[%d] reads %s, gene is %s" % (i, got, w[4 + i]), {"cases": [l], "impl": ho})
+            s = f.index("set")
+            newg = f[s + 2:s + 2 + n]
+            vtok = w[5 + n] if op == "gaacc" else (NAN if fl(w[5 + n]) != fl(w[5 + n]) else w[5 + n])
+            want = [x if op == "gaacc" else (NAN if fl(x) != fl(x) else x) for x in w[4:4 + n]]
+            want[i] = vtok
+            if newg != want or f[s + 2 + n:s + 4 + n] != ["age", str(age)]:
+                ck.add_violation("%s:operator[]-write" % op, "x[%d] = v changed the individual to %s (age %s), expected %s (age %d)"
+                                 % (i, newg, f[s + 3 + n:s + 4 + n], want, age), {"cases": [l], "impl": ho})
+            ck.nontriv((op, l))
+        if int(f[f.index("incage") + 1]) != (age + 1) % 2 ** 32:
+            ck.add_violation("%s:inc_age" % op, "inc_age: %d -> %s" % (age, f[f.index("incage") + 1]), {"cases": [l], "impl": ho})
+
+
 def run(ck):
     vv.build_lib("asan")
     res = vv.prove("Properties_C17", vv.FLOCQ_AXIOMS)
@@ -509,6 +565,7 @@ def run(ck):
                     ck.nontriv(("garun", l))
             elif ho != "TIMEOUT":
                 ck.add_diff({"line": l}, None, ho, what="harness rejected the case")
+        accessor_cases(ck, harness, model, hist)
         ck.coverage["rounds_of_operator_sequences"] = rounds
         ck.coverage["problems"] = {"integer": len(probs_i), "real": len(probs_r), "lengths": sorted(set(lens))}
     ck.coverage["per_operation"] = hist
